@@ -111,7 +111,11 @@ Theorem C16_verdict_reflects_database_at_probe_instants : forall re d d' others 
   (forall t ms, In t (probe_points now st) \/ t = eval_time now instant_request ->
                 instant_match re d t ms = instant_match re d' t ms) ->
   check re d others now st rules sels = check re d' others now st rules sels.
-Proof. intros re d d' others now st rules sels H. apply check_all_agree. exact H. Qed.
+Proof.
+  intros re d d' others now st rules sels H. unfold check.
+  apply (check_all_agree re now st d d'). unfold agree. intros t ms Ht. apply H.
+  destruct Ht as [Ht|Ht]; [left; exact Ht|right; exact Ht].
+Qed.
 Print Assumptions C16_verdict_reflects_database_at_probe_instants.
 
 (** the instants of the range probes: the evaluation grids of the requests [range_requests] *)
